@@ -297,6 +297,25 @@ func genC13kmac(c *Ctx, datas map[string][]byte) {
 	for l := 0; l <= 2*168+1; l++ {
 		run("kmac-datalen", lcgBytes(32, 9), []byte("H2C"), 128, []string{"c:" + genData(datas, l, 10)})
 	}
+	// zero-length writes at every place of a short history (an object that tracks "written since the last reset" must
+	// not forget a write because an empty one followed): fixed histories, independent of the random ones below
+	{
+		e := genData(datas, 0, 1)
+		a := genData(datas, 7, 21)
+		b := genData(datas, 169, 22)
+		for hi, ops := range [][]string{
+			{"w:" + a, "w:" + e, "c:" + b, "s"},
+			{"w:" + a, "w:" + e, "r", "w:" + b, "s"},
+			{"w:" + a, "w:" + e, "s", "w:" + e, "s"},
+			{"w:" + e, "w:" + a, "w:" + e, "r", "s"},
+			{"w:" + b, "w:" + e, "w:" + e, "c:" + a, "w:" + a, "s"},
+			{"c:" + a, "w:" + a, "w:" + e, "c:" + a, "r", "w:" + e, "s"},
+			{"w:" + e, "s", "w:" + a, "w:" + e, "r", "w:" + e, "w:" + a, "s"},
+		} {
+			run(fmt.Sprintf("kmac-empty-writes/%d", hi), lcgBytes(16, 31), []byte("cust"), 32, ops)
+			run(fmt.Sprintf("kmac-empty-writes/%d", hi), lcgBytes(200, 32), nil, 128, ops)
+		}
+	}
 	// interleavings: KMAC SumHash/ComputeHash work on a clone, writing afterwards continues the stream
 	for i := 0; i < nSeq; i++ {
 		ops := []string{}
